@@ -109,3 +109,5 @@ def run(ctx):
     shapes(ctx)
     scenes(ctx, rnd)
     lattice(ctx, rnd)
+    from checks import ext_iter   # EXT: EdgeIterator, ShapeIndexRegion (spec/Iterators.tla, spec/Gen_IterRegions.tla)
+    ext_iter.run_c06(ctx)
